@@ -278,7 +278,7 @@ def main(tier: str, budget_s: Optional[float] = None) -> int:
     # cheap phases first, the big trees last: if the budget runs out, it cuts into depth, not into whole dimensions
     total, info, complete = run_phases([ph for ph in phases if ph.get("symbols") == "fe"], generic_worker, FE_FIRST, FE_SYMBOLS, EXTRA, deadline, __name__)
     main_phases = sorted([ph for ph in phases if ph.get("symbols") != "fe"], key=lambda ph: (ph["name"] in HEAVY_PHASES, ))
-    t2, i2, c2 = run_phases(main_phases, generic_worker, FIRST, SYMBOLS, EXTRA, deadline, __name__)
+    t2, i2, c2 = run_phases(main_phases, generic_worker, FIRST, SYMBOLS, EXTRA, deadline, __name__, by_depth=True)
     total.merge(t2)
     info += i2
     complete = complete and c2
